@@ -126,7 +126,7 @@ var cfgC06 = reg(PropCfg{
 	ID: "C06",
 	Profile: &Profile{PReimport: 3, Weights: map[string]int{WrkReg: 12, WrkRec: 22, WrkPur: 12, BcnReg: 10, BcnRec: 18, BcnPur: 10, BankSend: 6, EntRaise: 8, EntDecide: 14, StrCreate: 2, FeeGrantOp: 5},
 		MinBlocks: 6, MaxBlocks: 25, MaxTxs: 6, MaxOps: 4, PUpper: 3, PActor: 4, PNamed: 1, PFault: 3, PExec: 12, PGovParams: 8, PBadRef: 3, TinyLimits: false,
-		ValidParams: true, GovKinds: []string{ParamsWrk, ParamsBcn}, PCheck: 60, LockedActors: true, PGranter: 15, NodeMinGas: true, RegDenomMix: true,
+		ValidParams: true, GovKinds: []string{ParamsWrk, ParamsBcn}, PCheck: 60, LockedActors: true, PGranter: 15, NodeMinGas: true, RegDenomMix: true, HugeFeeParams: true,
 		FeeModes: []int{FeeExact, FeeExact, FeeExact, FeeNone, FeeLower, FeeHigher, FeeExactPlusExtraDenom, FeeOnlyExtraDenom, FeeLowerPlusExtraDenom, FeeHigherPlusExtraDenom, FeeFirstModuleOnly, FeeSubset, FeeSubset}, MultiPct: 30, PSameKind: 50, PFeePayer: 8},
 	Rule: "history containing >=1 CheckTx of a tx with >=1 WRKChain/BEACON operation and valid signature/sequence (reaches the fee decorators); distinct by scenario hash",
 	NonTrivial: func(w *World) bool { return w.Classes["c06.feeop-tx-reaching-fee-checks"] > 0 },
@@ -198,7 +198,7 @@ var cfgC13 = reg(PropCfg{
 	Profile: &Profile{PReimport: 3, Weights: map[string]int{EntRaise: 8, EntDecide: 12, EntWL: 6, WrkReg: 5, WrkRec: 9, WrkPur: 4, BcnReg: 5, BcnRec: 8, BcnPur: 4,
 		StrCreate: 8, StrClaim: 8, StrTopUp: 4, StrUpdate: 4, StrCancel: 4, ParamsEnt: 2, ParamsWrk: 2, ParamsBcn: 2, ParamsStr: 2, BankSend: 2, FeeGrantOp: 3},
 		MinBlocks: 8, MaxBlocks: 35, MaxTxs: 5, MaxOps: 2, PUpper: 8, PActor: 30, PNamed: 12, PFault: 6, PExec: 14, PGovParams: 6, PBadRef: 3,
-		TinyLimits: true, MultiPct: 15, PFeePayer: 5, PForward: 40, PRetry: 5, PGranter: 12, PExecTail: 25, PEscrow: 5, RegDenomMix: true, LockedActors: true, PAmino: 15, PTamper: 35},
+		TinyLimits: true, MultiPct: 15, PFeePayer: 5, PForward: 40, PRetry: 5, PGranter: 12, PExecTail: 25, PEscrow: 5, RegDenomMix: true, LockedActors: true, PAmino: 15, PTamper: 35, PGovRaise: 40},
 	Rule: "history containing >=1 attempt by an unentitled party on a live target (the same message would be meaningful for the entitled party); distinct by scenario hash",
 	NonTrivial: func(w *World) bool { return w.Classes["c13.attempt-on-live-target"] > 0 },
 	MinClasses: map[string]int{"c13.attempt-on-live-target": 200, "c13.entitled-control-ok": 500, "c13.attempt.exec-without-grant": 20, "c13.attempt.names-other-account": 20, "c13.control-via-grant": 3},
